@@ -20,7 +20,7 @@ use std::process::{Command, Stdio};
 use std::sync::atomic::{AtomicUsize, Ordering};
 use std::sync::{Arc, Mutex};
 
-pub const FAMILIES: [&str; 73] = [
+pub const FAMILIES: [&str; 75] = [
     "block-literal-lines",
     "block-folded-long-lines",
     "block-wide-indent",
@@ -77,6 +77,8 @@ pub const FAMILIES: [&str; 73] = [
     "big-anchor-document-then-many-documents",
     "big-tag-document-then-many-documents",
     "distinct-tag-handle-per-document",
+    "indent-map-chain-wide-payload-unresolvable-tag",
+    "indent-map-chain-wide-payload",
     "wide-flowseq-then-deep-nest",
     "wide-blockseq-then-deep-nest",
     "wide-flowmap-then-deep-nest",
@@ -474,6 +476,26 @@ pub fn render(family: &str, bytes: usize) -> String {
                 }
                 s.push('\n');
             }
+        }
+        "indent-map-chain-wide-payload-unresolvable-tag" | "indent-map-chain-wide-payload" => {
+            // a chain of block mappings nested by indentation (its text grows with the square of
+            // its depth, so the depth is the square root of a quarter of the size) above a wide
+            // flow mapping; one leaf may carry a core tag its text does not resolve to
+            let d = ((bytes / 4) as f64).sqrt() as usize;
+            for l in 0..d {
+                s.push_str(&" ".repeat(l));
+                s.push_str("k:\n");
+            }
+            s.push_str(&" ".repeat(d));
+            s.push_str("{");
+            if family.ends_with("unresolvable-tag") {
+                s.push_str("bad: !!int x, ");
+            }
+            while s.len() < bytes {
+                s.push_str(&format!("k{k}: v, "));
+                k += 1;
+            }
+            s.push_str("z: z}\n");
         }
         "distinct-tag-handle-per-document" => {
             while s.len() < bytes {
